@@ -19,6 +19,8 @@ RULE = (
     "decryptor. distinct = digest of (kind, key, payload, customer key, position); non-trivial = payload length >= 1"
 )
 ASSUMPTIONS = [
+    "the CRC of a frame is its last two bytes (as the stated layout ends with 'the payload and its CRC-16'): a valid frame followed by further blocks therefore counts as a frame with a wrong CRC and has to be refused, unless what is returned is covered by the trailing two bytes",
+    "payloads may be handed over as bytes, bytearray or memoryview; the caller's buffer must be left unchanged",
     "OpenSSL AES-128-CBC is the independent cipher; the frame model is written from the property text",
     "'reported as an error' = any exception from decrypt (the exception type is C14's business)",
     "a wrong-key unwrap that yields 'B' and a matching CRC by chance (p ~ 2^-24) is re-tried under 3 more keys before it is called a violation",
@@ -36,7 +38,7 @@ def mandatory_bins(tier):
     b = ["L%d" % L for L in range(254)]
     b += ["crc_lo_%02x" % v for v in range(256)] + ["crc_hi_%02x" % v for v in range(256)]
     b += ["crc_lo_00_solved", "crc_hi_00_solved", "crc_both_00_solved", "trailing_zero_payload", "key_ends_00",
-          "wrong_key", "wrong_marker", "wrong_crc", "custkey_pos_first", "custkey_pos_last", "custkey_mismatch", "custkey_pattern_before_slot", "shared_encryptor_object_sequence", "customer_key_attributes_reassigned_between_calls", "security_code_length_other_than_8",
+          "wrong_key", "wrong_marker", "wrong_crc", "custkey_pos_first", "custkey_pos_last", "custkey_mismatch", "custkey_pattern_before_slot", "shared_encryptor_object_sequence", "customer_key_attributes_reassigned_between_calls", "security_code_length_other_than_8", "payload_given_as_bytearray", "payload_given_as_memoryview", "frame_followed_by_extra_blocks",
           "security_code", "security_code_all_zero", "model_frame_accepted", "same_object_reuse"]
     return b
 
@@ -342,6 +344,60 @@ def run_shard(spec, ctx):
             except Exception as e:
                 ctx.violation("wrap_raises", {"L": len(payload), "exc": fmt_exc(e), "history": steps}, rp)
                 break
+    # payload handed over as bytearray / memoryview: same frame, and the caller's buffer is left as it was
+    if spec["res"] % 4 == 2:
+        for kind_ in ("cust", "code", "cust_ck"):
+            for L_ in (0, 1, 11, 12, 27, 40, 253):
+                for tname in ("bytearray", "memoryview"):
+                    if kind_ == "cust_ck" and L_ < 10:
+                        continue
+                    payload = rng.randbytes(L_)
+                    k_ = rng.randbytes(16)
+                    c_ = rng.randbytes(8)
+                    ck_ = rng.randbytes(10) if kind_ == "cust_ck" else None
+                    enc_ = B.ConfigSecurityCodeEncryptor(c_) if kind_ == "code" else (B.SoftwareCustKeyEncryptor(k_, ck_, 0) if ck_ else B.SoftwareCustKeyEncryptor(k_))
+                    aes_ = model.security_code_key(c_) if kind_ == "code" else k_
+                    buf_ = bytearray(payload)
+                    arg = buf_ if tname == "bytearray" else memoryview(bytes(payload))
+                    inner = (ck_ + payload[10:]) if ck_ else payload
+                    ctx.ev()
+                    ctx.bin("payload_given_as_" + tname)
+                    ctx.distinct("buftype", kind_, L_, tname, payload, aes_)
+                    rp = {"kind": "code" if kind_ == "code" else "cust", "key": k_.hex(), "payload": payload.hex(), "ck": ck_.hex() if ck_ else None, "pos": 0 if ck_ else None, "code": c_.hex(), "payload_type": tname}
+                    try:
+                        ct = enc_.encrypt(arg)
+                        fr = ossl.aes_cbc(aes_, ossl.ZERO_IV, ct, False) if ct and len(ct) % 16 == 0 else b""
+                        if fr != model.frame(inner):
+                            ctx.violation("frame_differs_from_model:payload_given_as_" + tname, {"L": L_, "got": fr, "expected": model.frame(inner)}, rp)
+                        elif bytes(buf_) != payload:
+                            ctx.violation("wrapping_modifies_the_callers_buffer", {"L": L_, "before": payload, "after": bytes(buf_)}, rp)
+                        elif tname == "bytearray" and enc_.encrypt(buf_) and ossl.aes_cbc(aes_, ossl.ZERO_IV, enc_.encrypt(buf_), False) != model.frame(inner):
+                            ctx.violation("frame_differs_from_model:same_buffer_wrapped_again", {"L": L_}, rp)
+                    except Exception as e:
+                        ctx.violation("wrap_raises", {"L": L_, "exc": fmt_exc(e), "payload_type": tname}, rp)
+    # a valid frame followed by further 16-byte blocks: the last two bytes of what decrypts are then not the CRC of the payload
+    # in front of them - the frame has a wrong CRC and must be refused
+    if spec["res"] % 4 == 3:
+        for kind_ in ("cust", "code"):
+            for L_ in (0, 5, 11, 12, 40, 200):
+                payload = rng.randbytes(L_)
+                k_ = rng.randbytes(16)
+                c_ = rng.randbytes(8)
+                aes_ = model.security_code_key(c_) if kind_ == "code" else k_
+                mk_ = (lambda: B.ConfigSecurityCodeEncryptor(c_)) if kind_ == "code" else (lambda: B.SoftwareCustKeyEncryptor(k_))
+                for extra in (rng.randbytes(16), bytes(16), model.frame(rng.randbytes(3)), rng.randbytes(48)):
+                    ctx.ev()
+                    ctx.bin("frame_followed_by_extra_blocks")
+                    ct = ossl.aes_cbc(aes_, ossl.ZERO_IV, model.frame(payload) + extra, True)
+                    rp = {"kind": kind_, "key": k_.hex(), "payload": payload.hex(), "ck": None, "pos": None, "code": c_.hex(), "extra": extra.hex()}
+                    try:
+                        got = mk_().decrypt(ct)
+                    except Exception as e:
+                        ctx.exc(e)
+                        continue
+                    tail_ok = len(got) + 2 <= len(model.frame(payload) + extra) and crcref.crc16(got) == int.from_bytes((model.frame(payload) + extra)[-2:], "big")
+                    if not tail_ok:
+                        ctx.violation("frame_followed_by_extra_blocks_accepted", {"L": L_, "extra_len": len(extra), "returned": got}, rp)
     # security codes of other lengths than 8 (the key is SHA-256 of the WHOLE code), and two codes sharing their first 8 bytes
     if spec["res"] % 4 == 1:
         for ln in (0, 1, 7, 9, 12, 16, 32, 40):
